@@ -142,12 +142,14 @@ class QueueSink(Sink[Any]):
         self._foreach = foreach
 
     def write(self, item: Any) -> None:
-        try:
-            item = (item if self._foreach else [item])
-            for i in item:
+        item = (item if self._foreach else [item])
+        #only failures of the queue itself are ignored. The items can be a lazy generator
+        #(e.g., a filter running in a worker process) whose own exceptions must surface.
+        for i in item:
+            try:
                 self._queue.put(i)
-        except (EOFError,BrokenPipeError,AssertionError):
-            pass
+            except (EOFError,BrokenPipeError,AssertionError):
+                break
 
 class LambdaSink(Sink[Any]):
     """A sink which passes written items to a callable function."""
